@@ -15,6 +15,7 @@
     class below it.
 -/
 import Mashu.Hooks
+import Mashu.Props.C19_Dispatch
 namespace Mashu.Hooks
 
 mutual
